@@ -1106,9 +1106,9 @@ def reshape_from_space(tensor: TorchObsType, space: spaces.Space) -> TorchObsTyp
     else:
         #
         reshaped: torch.Tensor = tensor.reshape(-1, *space.shape)
-        for squeeze_dim in [0, -1]:
-            if reshaped.size(squeeze_dim) == 1:
-                reshaped = reshaped.squeeze(squeeze_dim)
+        # NOTE: the leading (sample) axis is kept even for a single sample, the result is indexed by sample
+        if reshaped.ndim > 1 and reshaped.size(-1) == 1:
+            reshaped = reshaped.squeeze(-1)
         return reshaped
 
 
